@@ -266,6 +266,17 @@ fn check_collect(c: &CCase, obs: &mut Obs) -> CheckResult {
     if o.len() != n || o2.len() != n {
         return fail("collect_vec1_opt:len", "length");
     }
+    // element types without a null: nothing to encode as long as every item is Some (incl. no items)
+    {
+        let all_some: Vec<Option<i32>> = plain.iter().map(|v| Some(*v)).collect();
+        let g: Vec<i32> = all_some.clone().collect_vec1_opt();
+        let g2: Array1<i64> = all_some.iter().map(|v| v.map(|x| x as i64)).collect::<Vec<_>>().collect_vec1_opt();
+        let g3: VecDeque<usize> = all_some.iter().map(|v| v.map(|x| (x + 1000) as usize)).collect::<Vec<_>>().collect_vec1_opt();
+        let g4: Vec<bool> = all_some.iter().map(|v| v.map(|x| x > 0)).collect::<Vec<_>>().collect_vec1_opt();
+        if g != plain || g2.to_vec() != plain.iter().map(|x| *x as i64).collect::<Vec<_>>() || g3.iter().cloned().collect::<Vec<_>>() != plain.iter().map(|x| (*x + 1000) as usize).collect::<Vec<_>>() || g4 != plain.iter().map(|x| *x > 0).collect::<Vec<_>>() {
+            return fail("collect_vec1_opt:non-nullable", format!("collect_vec1_opt of all-Some items {:?} into integer / bool containers: {:?} {:?} {:?} {:?}", plain, g, g2, g3, g4));
+        }
+    }
     // the same collector from sources whose size hint is only an upper bound (filter, take_while, flat_map)
     let keep = |v: &Option<f64>| v.map(|x| (x as i64).rem_euclid(3) != 0).unwrap_or(true);
     let want: Vec<Option<f64>> = c.items.iter().map(|v| v.map(|x| x as f64)).filter(keep).collect();
